@@ -29,7 +29,8 @@ def _no_ties(H, vals):
 
 
 def _is_max(H, vals, i):
-    return H.and_(*[H.ge(vals[i], v) for v in vals])
+    """i is the FIRST maximal entry (ties are allowed: torch.argmax, used by summary(), returns the first maximum)"""
+    return H.and_(*([H.gt(vals[i], v) for v in vals[:i]] + [H.ge(vals[i], v) for v in vals[i + 1:]]))
 
 
 def _layer(H, kind, n_in, n_w, per_channel, bias, cin, cout, gumbel=False):
@@ -49,12 +50,7 @@ def _layer(H, kind, n_in, n_w, per_channel, bias, cin, cout, gumbel=False):
 
 
 def _set_alphas(H, q, tag, shape):
-    a = H.tensor(tag, shape)
-    if len(shape) == 1:
-        _no_ties(H, H.elements(a))
-    else:
-        for c in range(shape[1]):
-            _no_ties(H, [H.scalar(a[i, c]) for i in range(shape[0])])
+    a = H.tensor(tag, shape)                 # any real coefficients, ties included
     H.set_(q.alpha, a)
     return a
 
@@ -83,6 +79,7 @@ def h_cost_keys(H, kind, per_channel):
     def probe(v):
         seen.append(v)
         return torch.tensor(1.0)
+    static = dict(vars(layer))
     layer.get_cost(probe, {'output_shape': (1, cout, 1, 1)})
     kin, kout = ('in_features', 'out_features') if kind == 'linear' else ('in_channels', 'out_channels')
     alive_in = H.scalar(prod.out_features_eff)
@@ -95,7 +92,8 @@ def h_cost_keys(H, kind, per_channel):
     pairs = [(H.scalar(v['in_precision']), H.scalar(v['w_precision'])) for v in seen]
     H.ensure('cost-keys:every-precision-pair-offered', all(any(H.eq(p[0], a) and H.eq(p[1], b) for p in pairs)
                                                           for a in PRECS[2] for b in (PRECS0[2] if per_channel else PRECS[2])))
-    H.ensure('cost-keys:layer-not-modified', vars(layer).get(kout, None) == cout or kind != 'linear')
+    # reading the cost is an observer: the layer's own attributes are the objects they were
+    H.ensure('cost-keys:layer-not-modified', sorted(vars(layer).keys()) == sorted(static.keys()) and all(vars(layer)[key] is static[key] for key in static))
 
 
 def h_cost_exact_per_layer(H, kind, n_in, n_w, training_hard):
@@ -105,12 +103,16 @@ def h_cost_exact_per_layer(H, kind, n_in, n_w, training_hard):
     a_in = _set_alphas(H, in_q, 'in_alpha', (n_in,))
     a_w = _set_alphas(H, w_q, 'w_alpha', (n_w,))
     if training_hard:
+        # hard sampling is switched on through the layers, as MPS.update_softmax_options does: the input precision is chosen by the
+        # quantizer of the producer (here the network-input MPSIdentity), the weight precision by the layer's own quantizer
+        producer = MPSIdentity(in_q)
         layer.train()
-        in_q.update_softmax_options(hard=True)
-        w_q.update_softmax_options(hard=True)
+        producer.train()
+        producer.update_softmax_options(hard=True)
+        layer.update_softmax_options(hard=True)
         # annealing the temperature afterwards must not leave hard sampling
-        in_q.update_softmax_options(temperature=0.5)
-        w_q.update_softmax_options(temperature=0.5)
+        producer.update_softmax_options(temperature=0.5)
+        layer.update_softmax_options(temperature=0.5)
     else:
         layer.eval()
     in_q.sample_alpha()
@@ -230,7 +232,7 @@ PROPERTY = {
 _B = (True, False)
 _M = 'plinio/methods/mps/'
 HARNESSES = [
-    dict(name='cost-keys', fn='h_cost_keys', property=['C05'],
+    dict(name='cost-keys', fn='h_cost_keys', property=['C05', 'C18'],
          functions=[_M + 'nn/%s.py::%s.%s' % (f, c, m) for f, c in (('conv2d', 'MPSConv2d'), ('conv1d', 'MPSConv1d'), ('linear', 'MPSLinear'))
                     for m in ('get_cost', 'get_modified_vars', 'out_features_eff')] + [_M + 'nn/qtz.py::MPSPerChannelQtz.out_features_eff'],
          quick=[dict(kind=k, per_channel=pc) for k in ('conv2d', 'conv1d', 'linear') for pc in _B],
